@@ -15,7 +15,13 @@ Accepted language (anything else raises NotWellFormed with the offset):
               also holds the four non-ASCII characters that `[a-z]` matches under re.I: U+0130 U+0131 U+017F U+212A)
 Control characters (incl. STX/ETX) are ordinary characters here; a placeholder leak is C10's business.
 A node is (tag, [(name, value)], [child]) with child a node or a str; strings are UNESCAPED (entities decoded where
-html.unescape knows them, otherwise kept literally)."""
+html.unescape knows them, otherwise kept literally).
+
+Relation to the proved Lean reader `Ser.readForest` (cross-checked by corr/readers.py, 0 disagreements): on strings
+over Markdown's vocabulary the two accept the same language and read the same forest.  Deliberate differences: this
+reader knows only br / hr / img as void elements (Lean: all of HTML_EMPTY) and has no raw-text elements, so
+`<input></input>` and `<script><b>x</b></script>` pass here and not there; it has no comments / PIs and a narrower
+name grammar than Lean ([A-Za-z0-9:_.-]+ for tags and attributes), so `<!-- c -->`, `<x-y>` pass there and not here."""
 import html
 import re
 
